@@ -86,6 +86,8 @@ type world struct {
 	// extraX decides, presence by presence, whether another <x/> follows the
 	// muc#user one (nil: never)
 	extraX func() bool
+	// noInviteCB: the client has no HandleInvite callback
+	noInviteCB bool
 
 	mu        sync.Mutex
 	queue     []*xmltree.Node
@@ -96,7 +98,11 @@ type world struct {
 	nextID    int
 }
 
-func newWorld() (*world, error) {
+func newWorld() (*world, error) { return newWorldOpt(false) }
+
+// newWorldOpt: noInviteCB leaves Client.HandleInvite unset (the callback is
+// optional: invitations are then dropped).
+func newWorldOpt(noInviteCB bool) (*world, error) {
 	p, err := sess.NewPair(sess.Opts{Local: libAddr, Remote: "example.net"})
 	if err != nil {
 		return nil, err
@@ -109,6 +115,10 @@ func newWorld() (*world, error) {
 		HandleUserPresence: func(p stanza.Presence, it muc.Item) {
 			w.log.add(event{Ev: "cb", Op: "userpresence", Addr: p.From.String(), Typ: string(p.Type)})
 		},
+	}
+	if noInviteCB {
+		w.client.HandleInvite = nil
+		w.noInviteCB = true
 	}
 	m := mux.New(stanza.NSClient, muc.HandleClient(w.client), ping.Handle())
 	go func() {
@@ -318,6 +328,17 @@ func errorPieces(addr, id, etype, cond string) (string, string) {
 
 func (w *world) errorPresence(addr, id, etype, cond string) {
 	w.log.add(event{Ev: "presence", Addr: addr, Typ: "error", ID: id, Cond: cond, Self: true})
+	switch cond {
+	case "!no-error-element": // only the echoed request
+		w.send(fmt.Sprintf(`<presence from='%s' to='%s' id='%s' type='error'><x xmlns='%s'/></presence>`, addr, libAddr, id, nsMUC))
+		return
+	case "!empty-error-element":
+		w.send(fmt.Sprintf(`<presence from='%s' to='%s' id='%s' type='error'><x xmlns='%s'/><error/></presence>`, addr, libAddr, id, nsMUC))
+		return
+	case "!undecodable-by":
+		w.send(fmt.Sprintf(`<presence from='%s' to='%s' id='%s' type='error'><x xmlns='%s'/><error type='cancel' by='@@'><conflict xmlns='%s'/></error></presence>`, addr, libAddr, id, nsMUC, nsStanzas))
+		return
+	}
 	w.send(fmt.Sprintf(`<presence from='%s' to='%s' id='%s' type='error'><x xmlns='%s'/><error type='%s' by='%s'><%s xmlns='%s'/></error></presence>`,
 		addr, libAddr, id, nsMUC, etype, strings.SplitN(addr, "/", 2)[0], cond, nsStanzas))
 }
@@ -431,6 +452,9 @@ type call struct {
 	opts     *joinOpts
 	checked  bool
 	answered bool // the room has sent the self-presence for this call's request
+	// joinedAtRet (forced scenario M10): what Joined() said on the call's own
+	// goroutine right after the call had returned nil
+	joinedAtRet *bool
 }
 
 func classifyErr(err error) (class, cond string) {
